@@ -68,8 +68,11 @@ JudgeOp(r, line) ==
   \* C01: the call returned normally
   /\ (On("C01") /\ r.panic) => Report("panic", "C01", line, r, {"panic"}, [msg |-> r.msg])
   \* C09: the state after every operation is well-formed; display() returns L rows
-  /\ (On("C09") /\ ~r.panic /\ ~WellFormed(post, r.post.cols))
-        => Report("illformed", "C09", line, r, WellFormedBad(post, r.post.cols),
+  \* (a clause is reported when it becomes false, not again while it stays false)
+  /\ (On("C09") /\ ~r.panic /\ postOK
+        /\ WellFormedBad(post, r.post.cols) \ (IF HasScreen(st) /\ Shape(st) THEN WellFormedBad(st, r.post.cols) ELSE {}) # {})
+        => Report("illformed", "C09", line, r,
+                  WellFormedBad(post, r.post.cols) \ (IF HasScreen(st) /\ Shape(st) THEN WellFormedBad(st, r.post.cols) ELSE {}),
                   [x |-> post.x, y |-> post.y, L |-> post.L, C |-> post.C, mar |-> post.mar,
                    dirty |-> SetToSeq(post.dirty)])
   /\ (On("C09") /\ ~r.panic /\ ev.op = "display" /\ Len(disp) # post.L)
@@ -79,8 +82,8 @@ JudgeOp(r, line) ==
         LET bad == Bad(id, st, ev, post, disp) IN
         bad # {} => Report("mismatch", id, line, r, bad, Describe(Apply(st, ev), post))
   \* C17
-  /\ (On("C17") /\ preOK /\ postOK /\ ~r.panic /\ Bad_C17(need1, post) # {})
-        => Report("mismatch", "C17", line, r, Bad_C17(need1, post),
+  /\ (On("C17") /\ preOK /\ postOK /\ ~r.panic /\ Bad_C17(need, st, need1, post) # {})
+        => Report("mismatch", "C17", line, r, Bad_C17(need, st, need1, post),
                   [need |-> SetToSeq(need1), dirty |-> SetToSeq(post.dirty), L |-> post.L])
 
 Init ==
